@@ -61,7 +61,12 @@ func genVar(rng *rand.Rand) (efivar.Efivar, string) {
 }
 
 func genValue(rng *rand.Rand) (efivar.Marshallable, []byte, string) {
-	switch rng.Intn(6) {
+	switch rng.Intn(8) {
+	case 6, 7: // large values (a dbx of a few thousand hashes is tens of kilobytes)
+		n := []int{4091, 4092, 4093, 4096, 4097, 8192, 20000, 65536, 70001}[rng.Intn(9)]
+		b := make([]byte, n)
+		rng.Read(b)
+		return rawVal(b), b, "large-raw"
 	case 0:
 		return rawVal(nil), nil, "empty"
 	case 1:
